@@ -150,7 +150,8 @@ class TightCoupler:
                 f"{val} supplied has type {type(val)} which is not supported in {self}. "
                 f"Supported types: {self._SUPPORTED_TYPES}"
             )
-        self._previousIterationValue = val
+        # keep a copy: the interface may go on updating the very array or list it handed in
+        self._previousIterationValue = copy.deepcopy(val)
 
     def isConverged(self, val: _SUPPORTED_TYPES) -> bool:
         """
